@@ -348,3 +348,100 @@ func blockSearchAvoiding(from *ssa.BasicBlock, avoid ssa.Instruction, badBlk fun
 	}
 	return ""
 }
+
+// checkResultUsedAfterError — C09.E1. `v, err := f(…); if err != nil { log }` followed by a
+// use of v: the branch that saw the error does not leave, so v — nil by the usual contract —
+// is used on that path (a failed websocket upgrade then crashes the process on the first
+// dereference; any client can provoke it). A pointer/interface result may be used only where
+// control cannot arrive from the error branch.
+func checkResultUsedAfterError(c *Ctx, fns []*ssa.Function) {
+	p := c.P
+	n := 0
+	for _, fn := range fns {
+		for _, b := range fn.Blocks {
+			for _, in := range b.Instrs {
+				call, ok := in.(*ssa.Call)
+				if !ok {
+					continue
+				}
+				tup, ok := call.Type().(*types.Tuple)
+				if !ok || tup.Len() < 2 || !isErrorType(tup.At(tup.Len()-1).Type()) {
+					continue
+				}
+				var errX *ssa.Extract
+				var vals []*ssa.Extract
+				for _, r := range *call.Referrers() {
+					ex, ok := r.(*ssa.Extract)
+					if !ok {
+						continue
+					}
+					if ex.Index == tup.Len()-1 {
+						errX = ex
+					} else if isPointerLike(ex.Type()) {
+						vals = append(vals, ex)
+					}
+				}
+				if errX == nil || len(vals) == 0 {
+					continue
+				}
+				for _, r := range *errX.Referrers() {
+					bo, ok := r.(*ssa.BinOp)
+					if !ok || bo.Op != token.NEQ {
+						continue
+					}
+					for _, rr := range *bo.Referrers() {
+						ifi, ok := rr.(*ssa.If)
+						if !ok {
+							continue
+						}
+						n++
+						errSucc := ifi.Block().Succs[0]
+						// blocks reachable from the error branch
+						reach := map[*ssa.BasicBlock]bool{}
+						var walk func(x *ssa.BasicBlock)
+						walk = func(x *ssa.BasicBlock) {
+							if reach[x] {
+								return
+							}
+							reach[x] = true
+							for _, s := range x.Succs {
+								walk(s)
+							}
+						}
+						walk(errSucc)
+						bad := ""
+						for _, v := range vals {
+							for _, u := range *v.Referrers() {
+								if _, isDbg := u.(*ssa.DebugRef); isDbg {
+									continue
+								}
+								if u.Block() != nil && reach[u.Block()] && u.Block() != ifi.Block() {
+									// comparing the value with nil is not a use
+									if cmp, ok := u.(*ssa.BinOp); ok && (cmp.Op == token.EQL || cmp.Op == token.NEQ) {
+										continue
+									}
+									bad = T(v).String() + " used at " + p.InstrPos(u)
+								}
+							}
+						}
+						c.Require("C09.E1 result-not-used-after-its-error", FuncKey(fn)+": "+CalleeName(call.Common()), p.InstrPos(ifi), "a pointer result is used only where control cannot come from the branch that saw the call's error", bad == "", bad)
+					}
+				}
+			}
+		}
+	}
+	c.Count("error-checked calls with pointer results in reachable functions", n)
+}
+
+func isErrorType(t types.Type) bool {
+	n, ok := t.(*types.Named)
+	return ok && n.Obj().Pkg() == nil && n.Obj().Name() == "error"
+}
+
+func isPointerLike(t types.Type) bool {
+	switch t.Underlying().(type) {
+	case *types.Pointer, *types.Interface, *types.Map, *types.Chan:
+		return true
+	}
+	return false
+}
